@@ -474,6 +474,47 @@ func NewPowerLevelContentFromEvent(event PDU) (c PowerLevelContent, err error) {
 // parseIntegerPowerLevels unmarshals directly to PowerLevelContent, since that will kick up an
 // error if one of the power levels isn't an int64.
 func parseIntegerPowerLevels(contentBytes []byte, c *PowerLevelContent) error {
+	// json.Unmarshal silently skips JSON null, but a level that is present must
+	// be an integer (and the level maps must be objects with integer values).
+	var nullable struct {
+		Ban           json.RawMessage `json:"ban"`
+		Invite        json.RawMessage `json:"invite"`
+		Kick          json.RawMessage `json:"kick"`
+		Redact        json.RawMessage `json:"redact"`
+		UsersDefault  json.RawMessage `json:"users_default"`
+		EventsDefault json.RawMessage `json:"events_default"`
+		StateDefault  json.RawMessage `json:"state_default"`
+		Users         json.RawMessage `json:"users"`
+		Events        json.RawMessage `json:"events"`
+		Notifications json.RawMessage `json:"notifications"`
+	}
+	if err := json.Unmarshal(contentBytes, &nullable); err != nil {
+		return err
+	}
+	isNull := func(raw json.RawMessage) bool { return string(raw) == "null" }
+	for _, raw := range []json.RawMessage{
+		nullable.Ban, nullable.Invite, nullable.Kick, nullable.Redact,
+		nullable.UsersDefault, nullable.EventsDefault, nullable.StateDefault,
+		nullable.Users, nullable.Events, nullable.Notifications,
+	} {
+		if isNull(raw) {
+			return fmt.Errorf("power level must be an integer, not null")
+		}
+	}
+	for _, raw := range []json.RawMessage{nullable.Users, nullable.Events, nullable.Notifications} {
+		if raw == nil {
+			continue
+		}
+		var levels map[string]json.RawMessage
+		if err := json.Unmarshal(raw, &levels); err != nil {
+			return err
+		}
+		for key, level := range levels {
+			if isNull(level) {
+				return fmt.Errorf("power level for %q must be an integer, not null", key)
+			}
+		}
+	}
 	return json.Unmarshal(contentBytes, c)
 }
 
